@@ -351,16 +351,24 @@ def minimise_item(item):
   return (clause, m, det)
 
 
-def bfs(ctx, spec, depth, label=None, time_cap=None, max_min=300):
+def bfs(ctx, spec, depth, label=None, time_cap=None, max_min=300,
+        prefix=None):
   """Level-synchronous BFS to `depth`.  Merges counters into ctx and turns
-  violations into minimised, fingerprinted ones."""
+  violations into minimised, fingerprinted ones.  With `prefix` (a history)
+  the search starts from the state that history reaches instead of the empty
+  Gfa; every explored history then begins with the prefix, so judges,
+  reference models, minimisation and replay see ordinary histories."""
   label = label or spec.name
+  prefix = [tuple(o) for o in (prefix or [])]
   with guard(30):
-    g0 = spec.init()
-    k0 = spec.key(g0, Env())
+    g0, env0, errs0 = replay(spec, prefix)
+    if any(e is not None for e in errs0):
+      raise RuntimeError("{}: the prefix history is refused: {}".format(
+          label, [repr(e)[:80] for e in errs0 if e is not None]))
+    k0 = spec.key(g0, env0)
   seen = {k0}
   ctx.states.add(label + ":" + k0)
-  frontier = [[]]
+  frontier = [list(prefix)]
   raw = []
   completed = 0
   for d in range(1, depth + 1):
